@@ -174,6 +174,24 @@ def ghostChildPass (dta : DataTypeAttrs) (es : Errors) (x : TraitAttrCore × Kin
     | none => es
   else es
 
+/-- an Into conversion of a struct with a parameterless `#[parent]` member is assembled on a default value, statement by
+    statement: a flattened member, or a ghost entry that opens a nested struct of its own, has no struct expression to be
+    written in (fix 8ccd1e1) -/
+def childBareParentPass (input : Struct) (es : Errors) (x : TraitAttrCore × Kind) : Errors :=
+  let ty := x.1.ty
+  if !x.2.isFrom && !x.2.isIntoExisting && x.1.quickReturn.isNone && x.1.typeHint != .unit &&
+      input.fields.any (·.attrs.hasParameterlessParentAttr ty) then
+    let es := (input.fields.filter fun f => (f.attrs.child ty).isSome && (f.attrs.ghost ty x.2).isNone && !f.attrs.hasParentAttr ty).foldl
+      (fun es f => es.insert ("Member " ++ f.memberStr ++ ": #[child(...)] cannot be used next to a parameterless #[parent] member in 'into' conversions to " ++
+        ty.pathStr ++ ": the nested struct cannot be built on a default value")) es
+    -- a nested struct that only ghosts are addressed to is opened for them (unless a member goes by the same name)
+    let paths := (((input.attrs.ghostsAttr ty x.2).toList.flatMap (·.ghostData)).filter (·.childPath.isSome)).map
+      fun g => match g.childPath with | some c => c.strs.getLast?.getD "" | none => ""
+    (paths.filter fun path => !input.fields.any fun f => (f.attrs.child ty).isNone && f.memberStr == path).foldl
+      (fun es path => es.insert ("#[ghosts(" ++ path ++ "@...)] cannot be used next to a parameterless #[parent] member in 'into' conversions to " ++
+        ty.pathStr ++ ": the nested struct cannot be built on a default value")) es
+  else es
+
 /-- the per-field check shared by `validate_fields` (tuple struct + `as {}`) and `validate_variant_fields` -/
 def memberNameCheck (field : Field) (ty : TypePath) (k : Kind) (fallible : Bool) (noAttrMsg : String) (errors : Errors) : Errors :=
   if (field.attrs.ghost ty k).isSome || field.attrs.hasParentAttr ty then errors else
@@ -301,6 +319,7 @@ def validateFields (input : Struct) (byKind : List (TraitAttrCore × Kind)) (typ
   let es := input.fields.foldl (fun es field => ghostDefaultPass fromTypePaths field es) errors
   let es := (input.fields.flatMap (·.attrs.childAttrs)).foldl (fun es ca => childPass input.attrs typePaths intoTypePaths ca es) es
   let es := byKind.foldl (ghostChildPass input.attrs) es
+  let es := byKind.foldl (childBareParentPass input) es
   if !input.namedFields then
     (traitAttrsByKind input.attrs).foldl (fun es x => namePass input x.1.core x.2 x.1.fallible es) es
   else es
